@@ -6,7 +6,8 @@
    never read or write outside the loaded stream and their own buffers.
    Proved here (names end in _partial): the part of the tools that turns trusted-from-disk
    sizes into a cursor, i.e. the stream layer (stream.c: load_obs, check_stream_header,
-   stream_step as repaired by patches/fix-c19-stream-bounds.diff), the event-size decoder
+   stream_step as repaired by patches/fix-c19-stream-bounds.diff and
+   patches/fix-c19-clock-delta-overflow.diff), the event-size decoder
    (ovni.c: ovni_ev_size/ovni_payload_size, translated from the C) and ovnisort's own walks.
    NOT covered by a theorem: the event handlers' payload dereferences, ev_spec.c:print_arg,
    parson, the rest of the emulator; those are covered only by the sanitizer campaign of
@@ -109,6 +110,11 @@ Theorem C19_unfixed_int_overflow_refuted :
   exists bs, run_old bs zero_junk false = Run VSOverflow [].
 Proof. exact old_int_overflow. Qed.
 Print Assumptions C19_unfixed_int_overflow_refuted.
+
+Theorem C19_unfixed_clock_delta_overflow_refuted :
+  exists bs evs, run_old bs zero_junk true = Run VSOverflow evs.
+Proof. exact old_delta_overflow. Qed.
+Print Assumptions C19_unfixed_clock_delta_overflow_refuted.
 
 (* non-vacuity *)
 Example C19_ex_valid :
